@@ -606,6 +606,70 @@ def _same_outcome(real, model):
     return real[1] == model[1]
 
 
+def source_reader_resets(repo):
+    """which of the modelled resets are VISIBLE in the source (AST), per machine; None = the source does not have the expected
+    shape, nothing is concluded.  sami: `self.line = []` and `self.first_alignment = None` before / after it in the same
+    function; dfxp: `self.nodes = []` outside __init__; mdvd: a local `fps = ..` before the first loop of read() and no
+    self.fps; vtt: no assignment to self.* outside __init__ (no per-read instance state at all)."""
+    import ast
+    import os
+    out = {}
+
+    def cls_of(path, name):
+        tree = ast.parse(open(os.path.join(repo, "pycaption", *path), encoding="utf-8").read())
+        return [n for n in tree.body if isinstance(n, ast.ClassDef) and n.name == name][0]
+
+    def self_assigns(fn):
+        res = []
+        for node in ast.walk(fn):
+            if isinstance(node, (ast.Assign, ast.AugAssign, ast.AnnAssign)):
+                for t in (node.targets if isinstance(node, ast.Assign) else [node.target]):
+                    if isinstance(t, ast.Attribute) and isinstance(t.value, ast.Name) and t.value.id == "self":
+                        res.append((t.attr, node.lineno, getattr(node, "value", None)))
+        return res
+    try:
+        c = cls_of(["sami.py"], "SAMIReader")
+        fs = set()
+        for fn in [n for n in c.body if isinstance(n, ast.FunctionDef) and n.name != "__init__"]:
+            a = self_assigns(fn)
+            lines = [ln for (x, ln, v) in a if x == "line" and isinstance(v, ast.List) and not v.elts]
+            if lines:
+                fs.add(0)
+                for (x, ln, v) in a:
+                    if x == "first_alignment" and isinstance(v, ast.Constant) and v.value is None:
+                        fs.add(1 if ln < lines[0] else 2)
+        out["sami"] = sorted(fs)
+    except Exception:  # noqa
+        out["sami"] = None
+    try:
+        c = cls_of(["dfxp", "base.py"], "DFXPReader")
+        ok = any(x == "nodes" and isinstance(v, ast.List) and not v.elts
+                 for fn in c.body if isinstance(fn, ast.FunctionDef) and fn.name != "__init__" for (x, ln, v) in self_assigns(fn))
+        out["dfxp"] = [0, 1, 2] if ok else [1, 2]
+    except Exception:  # noqa
+        out["dfxp"] = None
+    try:
+        c = cls_of(["microdvd.py"], "MicroDVDReader")
+        rd = [n for n in c.body if isinstance(n, ast.FunctionDef) and n.name == "read"][0]
+        local = False
+        for st in rd.body:
+            if isinstance(st, (ast.For, ast.While)):
+                break
+            if isinstance(st, ast.Assign) and any(isinstance(t, ast.Name) and t.id == "fps" for t in st.targets):
+                local = True
+        uses_self = any(x == "fps" for fn in c.body if isinstance(fn, ast.FunctionDef) for (x, ln, v) in self_assigns(fn))
+        out["mdvd"] = [0] if local and not uses_self else ([] if uses_self else None)
+    except Exception:  # noqa
+        out["mdvd"] = None
+    try:
+        c = cls_of(["webvtt.py"], "WebVTTReader")
+        stateful = any(self_assigns(fn) for fn in c.body if isinstance(fn, ast.FunctionDef) and fn.name != "__init__")
+        out["vtt"] = None if stateful else [0]
+    except Exception:  # noqa
+        out["vtt"] = None
+    return out
+
+
 def reader_state_stream(ctx, res):
     """One SAMIReader / DFXPReader / MicroDVDReader / WebVTTReader(options) object reads 2-3 documents whose abstract form
     (paragraph items / frame lines / cue times) is known by construction, raising documents in between, the same document
@@ -616,6 +680,7 @@ def reader_state_stream(ctx, res):
     rng = random.Random(ctx.rng.getrandbits(64))
     n = ctx.n(60, 300)
     dist = res["distribution"].setdefault("reader_object_state", {})
+    SRC = source_reader_resets(ctx.repo)
     for machine in ("vtt", "mdvd", "sami", "dfxp"):
         cases = [_gen_obj_case(rng, machine) for _ in range(n)]
         mid, full = MACHINE[machine]
@@ -655,7 +720,29 @@ def reader_state_stream(ctx, res):
                     res["disagreements"].append({"what": "%s reader reuse: read %d on the reused object vs object-state model"
                                                          % (machine, k + 1), "impl": a, "model": b, "history": docs, "op_index": k})
                     break
-        dist[machine] = {"sequences": n, "reads": reads, "reads_that_raised": raised, "compared_with_object_state_model": compared,
+        src = SRC.get(machine)
+        note = None
+        if src is not None and set(src) != set(full):
+            # a reset is not visible in the source: the MODEL says on which sequences that matters, the real reader is asked
+            more = cases + [_gen_obj_case(rng, machine) for _ in range(200)]
+            a_ = obj_model(machine, more, full)
+            b_ = obj_model(machine, more, src)
+            cand = [cs_ for cs_, x, y in zip(more, a_, b_) if x and y and x[1] != y[1]]
+            confirmed = 0
+            for (opts, docs) in cand[:40]:
+                bad = obj_reuse_failures(machine, opts, docs)
+                if bad:
+                    confirmed += 1
+                    if not any(v.get("replay") == "obj-reuse" and v.get("machine") == machine for v in res["violations"]):
+                        res["violations"].append({"kind": "read-differs-from-pristine:%s" % machine, "replay": "obj-reuse",
+                                                  "machine": machine, "opts": opts, "docs": docs, "input": docs, "op_index": bad[0],
+                                                  "what": "resets not visible in the source: %s; model-guided search: read %d on ONE "
+                                                          "%s reader object differs from the same read on a new object"
+                                                          % ([names[f] for f in full if f not in src], bad[0] + 1, machine)})
+            note = {"resets_not_visible_in_source": [names[f] for f in full if f not in src],
+                    "model_predicted_exposing_sequences": len(cand), "confirmed_on_the_real_reader": confirmed}
+        dist[machine] = {"resets_read_off_the_source": None if src is None else [names[f] for f in src], "source_vs_model": note,
+                         "sequences": n, "reads": reads, "reads_that_raised": raised, "compared_with_object_state_model": compared,
                          "outside_model_domain_(fresh_read_differs)": outside,
                          "sequences_on_which_leaving_out_the_reset_changes_a_result_(model)": exposes}
 
